@@ -186,6 +186,35 @@ def run(report, tier, seed):
                         viol.append((f"{name}:nonconstant-divisor", f"{label}.{name}({dividend}, {divisor}) raised {type(exc).__name__}: {exc} "
                                      f"instead of FeatureNotSupported", {"function": name}))
 
+    # ---- out= targets, fresh and aliasing the first operand (in-place forms) --------------------------
+    for name in ("floor_divide", "true_divide", "add", "subtract", "multiply"):
+        npf = getattr(numpy, name)
+        for _ in range(reps):
+            shape = catalogue._shape(rng, 1, 2)
+            size = int(numpy.prod(shape))
+            a = numpy.array([rng.choice([-6, -3, -1, 0, 2, 4, 7]) for _ in range(size)], dtype=float).reshape(shape)
+            d = numpy.array([rng.choice([-2, -1, 1, 2, 4]) for _ in range(size)], dtype=float).reshape(shape)
+            if rng.random() < 0.4:
+                d = d.reshape(-1)[:1].reshape(())          # scalar second operand
+            for aliased in (False, True):
+                pa, pd = numpoly.polynomial(a.copy()), numpoly.polynomial(numpy.array(d, copy=True))
+                out = pa if aliased else numpoly.polynomial(numpy.zeros(shape))
+                exp = npf(a, d)
+                n_eval += 1
+                try:
+                    with numpy.errstate(all="ignore"):
+                        got = npf(pa, pd, out=out)
+                except Exception as exc:  # noqa: BLE001
+                    accepted.append(f"numpy.{name}(p, d, out=...) raised {type(exc).__name__}: {str(exc)[:80]}")
+                    continue
+                dsc = same(got, exp)
+                if not dsc and isinstance(out, numpoly.ndpoly):
+                    dsc = same(out, exp, "out")
+                if dsc:
+                    viol.append((f"{name}:out" + (":aliased" if aliased else ""),
+                                 f"numpy.{name}({a.tolist()}, {numpy.asarray(d).tolist()}, out={'the first operand' if aliased else 'a fresh array'}): {dsc}",
+                                 {"function": name, "aliased": aliased}))
+
     # ---- Coq models on constants: comparisons, linear reductions, selections -------------------------
     ncoq = 150 if tier == "quick" else 2000
     codes = {"greater": "code_gt", "greater_equal": "code_ge", "less": "code_lt", "less_equal": "code_le"}
